@@ -83,7 +83,7 @@ func runC09(ctx *Ctx, c c09Case) {
 }
 
 func checkC09(ctx *Ctx) {
-	ctx.Res.Rule = "chain workflows with one injected task failure: kind in {exit before / after a partial / after the full write, SIGKILL of the shell, declared output not produced} x failing level x failing input, siblings running concurrently; plus tasks that cannot be formed (empty parameter value, invalid output path, missing tag); all cases non-trivial; distinct by (chain, level, input, kind). Checks: exit status non-zero, Run never returns, failing output absent, no dependant command starts, finalized files correct, model verdict for the same behaviour."
+	ctx.Res.Rule = "chain workflows with one injected task failure: kind in {exit before / after a partial / after the full write, SIGKILL of the shell, declared output not produced} x failing level x failing input, siblings running concurrently; plus tasks that cannot be formed (empty parameter value, invalid output path, missing tag); all cases non-trivial; distinct by (chain, level, input, kind). Checks: exit status non-zero, Run never returns, failing output absent, no dependant command starts, finalized files correct, model verdict for the same behaviour; also: a missing declared output beside a streaming one, and the failing surplus task of a join whose branches differ by one item."
 	r := NewRng(ctx.Seed)
 	n := 30
 	if ctx.Thorough() {
